@@ -554,6 +554,36 @@ pub fn run_c02(ctx: &mut Ctx, known: &Known) {
             }
         }
     }
+    // lists of two plain patterns whose occurrences overlap in the value (every pair of shapes over
+    // the needles a, b, ab, ba; every string over {a, b} up to length 3)
+    {
+        let mut pats: Vec<String> = vec![];
+        for x in ["a", "b", "ab", "ba"] {
+            pats.push(x.to_string());
+            pats.push(format!("{}*", x));
+            pats.push(format!("*{}", x));
+            pats.push(format!("*{}*", x));
+        }
+        let mut strs: Vec<String> = vec![String::new()];
+        let mut frontier = vec![String::new()];
+        for _ in 0..3 {
+            let mut next = vec![];
+            for t in &frontier {
+                for ch in ["a", "b"] {
+                    next.push(format!("{}{}", t, ch));
+                }
+            }
+            strs.extend(next.iter().cloned());
+            frontier = next;
+        }
+        let odocs: Vec<Yaml> = strs.iter().map(|v| map1("s", ys(v))).collect();
+        for i in 0..pats.len() {
+            for j in (i + 1)..pats.len() {
+                let body = map1("s", Yaml::Sequence(vec![ys(&pats[i]), ys(&pats[j])]));
+                fixed.push((vec![("A".into(), body)], gen::Cond::Id("A".into()), odocs.clone()));
+            }
+        }
+    }
     let n_fixed = fixed.len();
     for i in 0..n + n_fixed {
         let mut r = Rng::new(ctx.seed.wrapping_mul(6151).wrapping_add(i as u64));
